@@ -6,9 +6,15 @@ module N :
  sig
   val add : coq_N -> coq_N -> coq_N
 
+  val sub : coq_N -> coq_N -> coq_N
+
+  val mul : coq_N -> coq_N -> coq_N
+
   val compare : coq_N -> coq_N -> comparison
 
   val eqb : coq_N -> coq_N -> bool
+
+  val leb : coq_N -> coq_N -> bool
 
   val min : coq_N -> coq_N -> coq_N
 
